@@ -67,6 +67,17 @@ CHECKS["C14"] = dict(
     technique="Lean 4 theorems on a byte-sink model + child-process differential execution of the real stdout_channel",
     ref="§5 C14")
 
+CHECKS["C03"] = dict(
+    text="Frame protocol (terminal has the canvas's size; a size change is a resize event with ARBITRARY terminal-side contents/cursor/saved position/pending flag plus set_size). Lean proves by induction over the row-major cell loop (draw_loop) and over frame sequences: from the invariant (belief agrees with terminal, remembered frame = displayed grid) - or for a size-changing first frame from a fresh terminal object and ANY unknown terminal - after every draw every cell of the reference terminal's visible grid equals cellOf(canvas cell) (glyph text, charset, all attributes), for deferred-wrap and no-wrap terminals and all three erase behaviours; for immediate-wrap terminals under the exact exclusion 'the bottom-right cell is not transmitted'. The full statement is proved FALSE of the code on a concrete witness (1x1 immediate-wrap terminal scrolls) - partial, recorded as known finding. The oracle compares the whole grid with the canvas after every real draw.",
+    note=VTNOTE + " C03 is claimed as *_partial* for wrap=immediate (known finding 'C03 immediate-wrap bottom-right'); the README-style use without declaring a size is outside the proved protocol (tie only).",
+    technique="Lean 4 proof: loop invariant over the cell traversal + frame-sequence induction on the simulation invariant; proved counterexample for the excluded case; frame-sequence differential tie",
+    ref="§5 C03")
+CHECKS["C04"] = dict(
+    text="Lean proves: drawing the canvas last drawn yields no operations and hence no bytes from any terminal state; the operation list of a draw is exactly an erase iff the size changed followed by move+element for the cells whose element differs (library inequality) from the previous frame or from blanks, in for_each_in_region order which is row-major without duplicates (C16 lemmas); and on the wire: the reference terminal's print log grows during the draw by exactly those cells - each once, in that order, at its own position, shown as the canvas element - on every kind of terminal.",
+    note=VTNOTE,
+    technique="Lean 4 proof (definitional unfolding of the draw + loop lemma lifted through the simulation invariant); per-draw glyph count/position oracle on real bytes",
+    ref="§5 C04")
+
 NOT_YET = {}
 
 
